@@ -189,7 +189,8 @@ where
     let budget = Duration::from_secs_f64(cfg.max_secs);
     std::thread::scope(|s| {
         for _ in 0..cfg.threads.max(1) {
-            s.spawn(|| {
+            // deep type nestings recurse deeply inside the library (registration, retain): give the workers room
+            std::thread::Builder::new().stack_size(256 << 20).spawn_scoped(s, || {
                 let mut rep = Report::default();
                 loop {
                     if stop.load(Ordering::Relaxed) {
@@ -215,7 +216,8 @@ where
                     rep.count("cases_run", 1);
                 }
                 total.lock().unwrap().merge(rep);
-            });
+            })
+            .expect("spawn worker");
         }
     });
     total.into_inner().unwrap()
